@@ -98,7 +98,7 @@ static bool same(const Answer& a, const Answer& b) {
 }
 
 struct Op { std::string name; int kind; int a = 0, b = 0; bool config = false; int cslot = -1, cval = 0; };
-enum { K_UNK, K_RES, K_SSQ, K_DEF, K_QXX, K_QBB, K_Q0XX, K_LINDEP, K_MINX_ALL, K_MINX_S, K_RESET, K_SETALG, K_QBX, K_ADJ_X, K_ADJ_R, K_ADJ_RTR,
+enum { K_UNK, K_RES, K_SSQ, K_DEF, K_QXX, K_QBB, K_Q0XX, K_LINDEP, K_MINX_ALL, K_MINX_S, K_RESET, K_SETALG, K_QBX, K_ADJ_X, K_ADJ_R, K_ADJ_RTR, K_ADJ_SETDATA,
        N_SOLVE, N_RES, N_VWV, N_DOF, N_NULL, N_M0, N_NUNK, N_NOBS, N_QXX, N_QBB, N_STDOBS, N_WCOEF, N_STDRES, N_STUD, N_OBSCTL, N_UNKSTD, N_ELL, N_LINDEP, N_COND, N_CONF, N_HUGE, N_CONN, N_M0POST,
        N_SETALG, N_UPD, N_M0TYPE, N_CONFPR, N_STATUS, N_UNKTAB, N_OBSACT };
 
@@ -225,14 +225,25 @@ struct SolverTarget : Target {
 
 struct AdjTarget : Target {
   Adj adj;
-  AdjTarget(const Problem& pp, int subset) : Target(pp) {
+  int subset0; int cfg_data = 0;
+  // input-data variants given to the SAME Adj object by set(): 0 = the data of the unit; 1 = the same system with
+  // the regularisation list shifted cyclically by one unknown (same length, other indexes); 2 = list shorter by one
+  // (or longer by one if it had a single entry)
+  std::vector<int> variant_list(int d, bool& has) const {
+    std::vector<int> L; has = true;
+    if (subset0 >= 0) L = p.subsets[subset0]; else { for (int i = 1; i <= p.n; i++) L.push_back(i); if (d == 0) has = false; }
+    if (d == 1) for (int& i : L) i = i % p.n + 1;
+    if (d == 2) { if (L.size() > 1) L.pop_back(); else L.push_back(L[0] % p.n + 1); }
+    return L;
+  }
+  AdjTarget(const Problem& pp, int subset) : Target(pp), subset0(subset) {
     adj.set(make_input(p, subset >= 0 ? &p.subsets[subset] : nullptr));
     cfg_minx = subset;
     cfg_alg = 0;
   }
-  std::vector<int> cfgv() const override { return {cfg_alg}; }
+  std::vector<int> cfgv() const override { return {cfg_alg, cfg_data}; }
   std::string key() override {
-    std::ostringstream o; o << cfg() << " A s" << adj.solved << " a" << (int)adj.algorithm_ << " ";
+    std::ostringstream o; o << cfg() << "/d" << cfg_data << " A s" << adj.solved << " a" << (int)adj.algorithm_ << " ";
     if (adj.solved) o << "x" << std::hex << (hv(adj.x_) & 0xffffff) << " r" << (hv(adj.r_) & 0xffffff) << " t" << (hround(adj.rtr_, 7) & 0xffffff) << std::dec << " ";
     o << key_base(adj.least_squares);
     return o.str();
@@ -248,6 +259,7 @@ struct AdjTarget : Target {
         case K_QXX: a.v.push_back(adj.q_xx(op.a, op.b)); break;
         case K_QBB: a.v.push_back(adj.q_bb(op.a, op.b)); break;
         case K_SETALG: adj.set_algorithm(ALG[op.a]); cfg_alg = op.a; a.isvoid = true; break;
+        case K_ADJ_SETDATA: { bool has; std::vector<int> L = variant_list(op.a, has); adj.set(make_input(p, has ? &L : nullptr)); cfg_data = op.a; a.isvoid = true; break; }
         default: a.exc = "badop";
       }
     });
@@ -384,7 +396,7 @@ static std::vector<Op> make_ops(const Problem& p, int kind) {
     switch (k) {
       case K_MINX_ALL: o.cslot = 0; o.cval = -1; break;
       case K_MINX_S: case K_SETALG: case N_SETALG: o.cslot = 0; o.cval = a; break;
-      case N_M0TYPE: o.cslot = 1; o.cval = a; break;
+      case N_M0TYPE: case K_ADJ_SETDATA: o.cslot = 1; o.cval = a; break;
       case N_CONFPR: o.cslot = 2; o.cval = a; break;
       case N_STATUS: o.cslot = 3; o.cval = a; break;
       case N_OBSACT: o.cslot = 4; o.cval = a; break;
@@ -421,6 +433,8 @@ static std::vector<Op> make_ops(const Problem& p, int kind) {
     for (int i = 1; i <= qb; i++) for (int j = i; j <= qb; j++) add("q_bb(" + std::to_string(i) + "," + std::to_string(j) + ")", K_QBB, i, j);
     static const char* AN[4] = {"envelope", "gso", "svd", "cholesky"};
     for (int a = 0; a < 4; a++) add(std::string("set_algorithm(") + AN[a] + ")", K_SETALG, a, 0, true);
+    add("set(data of the unit)", K_ADJ_SETDATA, 0, 0, true); add("set(same system, regularisation list shifted by one unknown)", K_ADJ_SETDATA, 1, 0, true);
+    add("set(same system, regularisation list of another length)", K_ADJ_SETDATA, 2, 0, true);
     return ops;
   }
   add("unknowns", K_UNK); add("residuals", K_RES); add("sum_of_squares", K_SSQ); add("defect", K_DEF);
